@@ -1034,13 +1034,24 @@ func c08SchedJobs(quick bool) []sjob {
 	}
 	rec(nil)
 	var jobs []sjob
-	for _, fl := range []byte{0, 4} {
+	for _, fl := range []byte{0, 4, 0x80} {
 		for _, sc := range scripts {
 			fl, sc := fl, sc
+			// flag value 0x80 stands for: flags 0, all packets coalesced into ONE segment (scripts of two packets)
+			oneSegment := fl == 0x80
+			if oneSegment {
+				fl = 0
+				if len(sc) != 2 {
+					continue
+				}
+			}
 			if quick && fl == 0 && len(sc) == 3 {
 				continue
 			}
 			name := fmt.Sprintf("pipelined packets, flags %#x:", fl)
+			if oneSegment {
+				name = "pipelined packets in one segment:"
+			}
 			for _, p := range sc {
 				name += fmt.Sprintf(" %x:%d", p.sid, p.seq)
 			}
@@ -1052,6 +1063,7 @@ func c08SchedJobs(quick bool) []sjob {
 				w.L.Push(c)
 				model := ref.NewConnModel()
 				var wantLog, wantOut []string
+				var segment []byte
 				for _, p := range sc {
 					m := ref.NewMsg()
 					m.N["authen_method"], m.N["priv_lvl"], m.N["authen_type"], m.N["authen_service"] = 6, 1, 1, 1
@@ -1059,7 +1071,11 @@ func c08SchedJobs(quick bool) []sjob {
 					m.Args = [][]byte{[]byte("service=shell"), []byte("cmd=show")}
 					body, _ := ref.AuthorRequest.Encode(m)
 					h := ref.Header{Version: 0xc0, Type: 2, Seq: p.seq, Flags: fl, Session: p.sid}
-					c.Feed(ref.Packet(h, key, body))
+					if oneSegment {
+						segment = append(segment, ref.Packet(h, key, body)...)
+					} else {
+						c.Feed(ref.Packet(h, key, body))
+					}
 					if model.Open {
 						h.Length = uint32(len(body))
 						v := model.Step(h, ref.Action{Reply: true, Next: p.sid%2 == 0})
@@ -1070,6 +1086,9 @@ func c08SchedJobs(quick bool) []sjob {
 							}
 						}
 					}
+				}
+				if oneSegment {
+					c.Feed(segment)
 				}
 				vsyncrt.Quiesce()
 				if !c.Closed() {
